@@ -77,6 +77,37 @@ std::string fs(const Args& a) {
 				int rc = saveFile(nif, f[1], raw, trace, full);
 				st = rc == 0 ? "ok" : "save-rc" + std::to_string(rc);
 			}
+			else if (f[0] == "stripshape") {
+				// stripshape:<nstrips> : a NiTriStrips shape below the root whose NiTriStripsData holds <nstrips> strips of 3..5 points
+				// (no sample file carries strip geometry)
+				NiHeader& hdr = nif.GetHeader();
+				int ns = std::stoi(f[1]);
+				auto data = std::make_unique<NiTriStripsData>();
+				std::vector<Vector3> v;
+				uint16_t next = 0;
+				for (int k = 0; k < ns; ++k) {
+					int len = 3 + k % 3;
+					std::vector<uint16_t> strip;
+					for (int j = 0; j < len; ++j) {
+						strip.push_back(next++);
+						v.emplace_back(float(next), float(j % 2), float(k));
+					}
+					data->stripsInfo.points.push_back(strip);
+					uint16_t l16 = static_cast<uint16_t>(len);
+					data->stripsInfo.stripLengths.push_back(l16);
+				}
+				data->Create(hdr.GetVersion(), &v, nullptr, nullptr, nullptr);
+				data->stripsInfo.hasPoints = true;
+				uint32_t did = hdr.AddBlock(std::move(data));
+				auto shape = std::make_unique<NiTriStrips>();
+				shape->name.get() = "Strips";
+				shape->DataRef()->index = did;
+				shape->SetGeomData(hdr.GetBlock<NiGeometryData>(did));
+				uint32_t sid = hdr.AddBlock(std::move(shape));
+				if (auto root = nif.GetRootNode())
+					root->childRefs.AddBlockRef(sid);
+				st = "ok";
+			}
 			else if (f[0] == "loosechain") {
 				// loosechain:<n> : n nodes, each the parent of the previous one, none referenced from the scene graph,
 				// stored children-before-parents
